@@ -86,8 +86,8 @@ class RectanglePixelRegion(PixelRegion):
         self.width = width
         self.height = height
         self.angle = angle
-        self.meta = meta or RegionMeta()
-        self.visual = visual or RegionVisual()
+        self.meta = RegionMeta() if meta is None else meta
+        self.visual = RegionVisual() if visual is None else visual
 
     @property
     def area(self):
@@ -405,8 +405,8 @@ class RectangleSkyRegion(SkyRegion):
         self.width = width
         self.height = height
         self.angle = angle
-        self.meta = meta or RegionMeta()
-        self.visual = visual or RegionVisual()
+        self.meta = RegionMeta() if meta is None else meta
+        self.visual = RegionVisual() if visual is None else visual
 
     def to_pixel(self, wcs):
         center, pixscale, north_angle = pixel_scale_angle_at_skycoord(
